@@ -272,6 +272,17 @@ def main():
     out.append("(* rdb.rs bgsave: `*bgsave = true` before thread::spawn; inside the thread `match engine.save(..) {..}` whose arms\n   neither return nor can panic, followed at the closure's top level by `*bgsave = false` *)")
     out.append("Definition rdb_bgsave_sets_flag_before_spawn : bool := %s." % ("true" if sets_before else "false"))
     out.append("Definition rdb_bgsave_clears_flag_after_match : bool := %s." % ("true" if (clears_after and not arms_return) else "false"))
+    # saves are serialised: save() takes the save lock before it opens the temporary file, every
+    # caller of write_snapshot is save(), and the temporary file is opened in write_snapshot only
+    sv = fn_body(rdb, "save") or ""
+    lk = re.search(r"let\s+_[a-z_]*\s*=\s*self\.save_lock\.lock\(\)", sv)
+    ws_call = sv.find("self.write_snapshot(")
+    callers = [m9.group(1) for m9 in re.finditer(r"\n    (?:pub )?fn ([a-z_0-9]+)\s*[<(]", rdb)
+               if "write_snapshot(" in (block_after(rdb, m9.start()) if True else "") and m9.group(1) != "write_snapshot"]
+    serial = bool(lk) and 0 <= lk.start() < ws_call and sorted(set(callers)) == ["save"] and "drop(_" not in sv
+    out.append("(* rdb.rs: save() holds save_lock from before write_snapshot to its end; write_snapshot has no other caller *)")
+    out.append("Definition rdb_save_serialised : bool := %s." % ("true" if serial else "false"))
+    out.append("Definition rdb_write_snapshot_callers : list bytes :=\n  %s." % coq_list(sorted(set(callers))))
     txt = ("(** GENERATED by tools/gen_tables.py from /repo's current sources - do not edit. *)\n"
            "From Ferrous Require Import Base.Bytes.\nOpen Scope Z_scope.\n\n" + "\n\n".join(out) + "\n")
     path = os.path.join(VERIF, "coq", "Generated.v")
